@@ -548,6 +548,41 @@ func run[E any, P fields.Ptr[E]](c *mon.Ctx, f *fields.Field[E, P]) {
 				c.Check("Vector.AsyncReadFrom", N+"/Vector.AsyncReadFrom/count-mismatch", nr == int64(len(enc)), func() string { return fmt.Sprintf("n=%d read %d of %d", n, nr, len(enc)) })
 			}
 		}
+		// receivers that already hold a vector: longer, shorter or of the same length, with stale content and spare
+		// capacity - the decoded vector is the encoded one whatever the receiver held
+		for di, dl := range []int{n, n + 3, n - 1, 2*n + 1} {
+			if dl < 0 || (n > 200 && di > 1) {
+				continue
+			}
+			stale := func() []E {
+				v := make([]E, dl, dl+2)
+				for i := range v {
+					v[i] = f.FromValue(big.NewInt(int64(1000 + i)))
+				}
+				return v
+			}
+			tag := fmt.Sprintf("stale-receiver-len%+d", dl-n)
+			if *mode != "async" {
+				got, nr, err := f.VecReadFromInto(stale(), bytes.NewReader(enc))
+				if c.Check("Vector.ReadFrom", N+"/Vector.ReadFrom/error-on-valid/"+tag, err == nil, func() string { return fmt.Sprintf("n=%d err=%v", n, err) }) {
+					same("Vector.ReadFrom", got, tag)
+					c.Check("Vector.ReadFrom", N+"/Vector.ReadFrom/count-mismatch", nr == int64(len(enc)), func() string { return fmt.Sprintf("n=%d read %d of %d (%s)", n, nr, len(enc), tag) })
+				}
+				got, err = f.VecUnmarshalBinaryInto(stale(), enc)
+				if c.Check("Vector.UnmarshalBinary", N+"/Vector.UnmarshalBinary/error-on-valid/"+tag, err == nil, func() string { return fmt.Sprintf("n=%d err=%v", n, err) }) {
+					same("Vector.UnmarshalBinary", got, tag)
+				}
+			}
+			got, nr, err, ch := f.VecAsyncReadFromInto(stale(), bytes.NewReader(enc))
+			var cerr error
+			if ch != nil {
+				cerr = <-ch
+			}
+			if c.Check("Vector.AsyncReadFrom", N+"/Vector.AsyncReadFrom/error-on-valid/"+tag, err == nil && cerr == nil, func() string { return fmt.Sprintf("n=%d err=%v chan=%v", n, err, cerr) }) {
+				same("Vector.AsyncReadFrom", got, tag)
+				c.Check("Vector.AsyncReadFrom", N+"/Vector.AsyncReadFrom/count-mismatch", nr == int64(len(enc)), func() string { return fmt.Sprintf("n=%d read %d of %d (%s)", n, nr, len(enc), tag) })
+			}
+		}
 		if *mode != "async" {
 			got, err := f.VecUnmarshalBinary(enc)
 			if c.Check("Vector.UnmarshalBinary", N+"/Vector.UnmarshalBinary/error-on-valid", err == nil, func() string { return fmt.Sprintf("n=%d err=%v", n, err) }) {
